@@ -1020,6 +1020,70 @@ func init() {
 				}
 			})
 			c.check(appends == 1, "Push: one append", p.pos(push.Pos()), "appends one scope", fmt.Sprintf("Push performs %d appends", appends))
+			// … on every way through Push: a Push that only counts the call (an `empty scope on top is shared`
+			// shortcut) leaves the bindings set afterwards in the outer scope, where the matching Pop does not remove them
+			scopeAppends := map[ssa.Instruction]bool{}
+			eachInstr(push, func(in ssa.Instruction) {
+				if cl, ok := in.(*ssa.Call); ok && calleeName(&cl.Call) == "builtin.append" && len(cl.Call.Args) > 0 {
+					if f := loadedField(cl.Call.Args[0]); f == nil || fieldIs(f, "stack") {
+						scopeAppends[cl] = true
+					}
+				}
+			})
+			for i, r := range returnsOf(push) {
+				c.check(mustPassBefore(push, r, scopeAppends), fmt.Sprintf("Push: return#%d has appended a scope", i+1), p.instrPos(r), "every way to this return appends", "Push can return without having added a scope: what is Set afterwards lands in the scope below and survives the matching Pop")
+			}
+			// Pop: every return either follows the re-slice or is the `nothing to pop` exit
+			reslices := map[ssa.Instruction]bool{}
+			eachInstr(pop, func(in ssa.Instruction) {
+				if sl, ok := in.(*ssa.Slice); ok && sl.High != nil {
+					if f := loadedField(sl.X); f != nil && fieldIs(f, "stack") {
+						reslices[sl] = true
+					}
+				}
+			})
+			if len(reslices) > 0 {
+				for i, r := range returnsOf(pop) {
+					if mustPassBefore(pop, r, reslices) {
+						c.ok(fmt.Sprintf("Pop: return#%d has removed a scope", i+1), p.instrPos(r), "every way to this return re-slices the list")
+						continue
+					}
+					emptyOnly := true
+					gs := guardsOf(r.Block())
+					if len(gs) == 0 {
+						emptyOnly = false
+					}
+					for _, g := range gs {
+						isEmptyTest := false
+						if op, x, y, ok := relationConstRight(g.If.Cond, g.Branch); ok {
+							if z, isK := constInt(y); isK {
+								// the tested quantity may be len(list) shifted by a constant (topIdx := len(list) - 1; topIdx < 0)
+								if bo, isB := x.(*ssa.BinOp); isB && (bo.Op == token.SUB || bo.Op == token.ADD) {
+									if k, isC := constInt(bo.Y); isC {
+										if bo.Op == token.SUB {
+											z += k
+										} else {
+											z -= k
+										}
+										x = bo.X
+									}
+								}
+								if (op == token.EQL && z == 0) || (op == token.LSS && z == 1) || (op == token.LEQ && z == 0) {
+									if ln := isCallNamed(x, "builtin.len"); ln != nil {
+										if f := loadedField(ln.Call.Args[0]); f != nil && fieldIs(f, "stack") {
+											isEmptyTest = true
+										}
+									}
+								}
+							}
+						}
+						if !isEmptyTest {
+							emptyOnly = false
+						}
+					}
+					c.check(emptyOnly, fmt.Sprintf("Pop: return#%d has removed a scope", i+1), p.instrPos(r), "the only return that removes nothing is taken when the list is empty", "Pop can return without removing a scope although the list is not empty: the scope of the matching Push stays, its bindings shadow the outer ones for the rest of the render")
+				}
+			}
 			// Pop: a Slice of the list with High = len-1
 			okSlice := false
 			eachInstr(pop, func(in ssa.Instruction) {
